@@ -322,6 +322,9 @@ func (c *V2) Do(op Op) (out Outcome) {
 			if ch.Delete != "" {
 				u.Delete = &v2types.DeleteGlobalSecondaryIndexAction{IndexName: aws.String(ch.Delete)}
 			}
+			if ch.Update != "" {
+				u.Update = &v2types.UpdateGlobalSecondaryIndexAction{IndexName: aws.String(ch.Update), ProvisionedThroughput: v2Throughput()}
+			}
 			in.GlobalSecondaryIndexUpdates = append(in.GlobalSecondaryIndexUpdates, u)
 		}
 		for _, n := range ad.order {
